@@ -76,7 +76,7 @@ pub fn worker(cases: &str, results: &str, start: usize) -> i32 {
         }
     });
     crate::capture::install();
-    std::panic::set_hook(Box::new(|_| {}));   // panics are data; keep stderr quiet
+    crate::syntax::install_panic_hook();   // panics are data: remember where, keep stderr quiet
     let h = std::thread::Builder::new().stack_size(STACK_BYTES).spawn(move || {
         let mut out = std::fs::OpenOptions::new().append(true).open(&results).unwrap();
         for (i, line) in lines.iter().enumerate().skip(start) {
